@@ -304,3 +304,107 @@ Proof.
   rewrite Htr, foldM_app, H3. cbn [foldM snd]. rewrite foldM_app, H4. cbn [foldM].
   unfold trigger_record at 1. rewrite Hflow. rewrite raise_eq by in_list. reflexivity.
 Qed.
+
+(* ================================================================ whole-command statements *)
+Lemma wb_get_erase_none wb name : wb_get wb name = None -> wb_get (erase wb) name = None.
+Proof. intros H. rewrite wb_get_erase, H. reflexivity. Qed.
+
+(* missing sheet: an index row (template_definition, create_campaign, create_triggers,
+   content_index) names a sheet the workbook does not have; the rows before it are fine *)
+Theorem detect_missing_sheet_partial fuel wb dm pre r post st name :
+  wb_get wb s_content_index = Some (SIndex (pre ++ r :: post)) ->
+  process_index (S fuel) (erase wb) dm pre is0 = Ok st ->
+  x_draft r = false -> x_sheets r = [name] ->
+  (x_type r = ITemplateDef \/ x_type r = ICampaign \/ x_type r = ITriggers \/ x_type r = IContentIndex) ->
+  wb_get wb name = None ->
+  compile (S fuel) wb dm = Err ESheetNotFound.
+Proof.
+  intros Hix Hpre Hd Hs Ht Hw.
+  apply (index_fault_fatal fuel wb dm pre r post st); try assumption.
+  apply index_step_missing_sheet with (name := name); try assumption. apply wb_get_erase_none. exact Hw.
+Qed.
+
+Theorem detect_unknown_operation fuel wb dm pre r post st :
+  wb_get wb s_content_index = Some (SIndex (pre ++ r :: post)) ->
+  process_index (S fuel) (erase wb) dm pre is0 = Ok st ->
+  x_draft r = false -> x_type r = IDataSheet -> x_sheets r <> [] -> x_op r = OpOther -> x_new r <> [] ->
+  compile (S fuel) wb dm = Err EUnknownOp.
+Proof.
+  intros Hix Hpre Hd Ht Hs Ho Hn.
+  apply (index_fault_fatal fuel wb dm pre r post st); try assumption.
+  apply index_step_unknown_operation; assumption.
+Qed.
+
+Theorem detect_unknown_data_model_partial fuel wb defined pre r post st name more :
+  wb_get wb s_content_index = Some (SIndex (pre ++ r :: post)) ->
+  process_index (S fuel) (erase wb) (Some defined) pre is0 = Ok st ->
+  x_draft r = false -> x_type r = IDataSheet -> x_sheets r = name :: more ->
+  (x_op r = OpNone \/ (x_op r = OpConcat /\ x_new r <> [])) ->
+  aget (is_data st) name = None ->
+  x_model r <> [] -> mem_str (x_model r) defined = false ->
+  compile (S fuel) wb (Some defined) = Err EDataModel.
+Proof.
+  intros Hix Hpre Hd Ht Hs Ho Hreg Hm Hdef.
+  apply (index_fault_fatal fuel wb (Some defined) pre r post st); try assumption.
+  apply index_step_unknown_data_model with (name := name) (more := more); assumption.
+Qed.
+
+(* missing data sheet / data row of a flow definition; the definitions before it compile *)
+Theorem detect_missing_data_row_partial fuel wb dm st pre d post cs :
+  index_phase fuel (erase wb) dm = Ok st ->
+  is_flows st = pre ++ d :: post ->
+  foldM (flow_def_step cls (fun c => c) (visit_of wb) fuel st) pre (mkCS uu0 [] 0) = Ok cs ->
+  fd_dsheet d <> [] ->
+  (aget (is_data st) (fd_dsheet d) = None \/
+   (fd_drow d <> [] /\ exists ds, aget (is_data st) (fd_dsheet d) = Some ds /\ aget (ds_rows ds) (fd_drow d) = None)) ->
+  compile fuel wb dm = Err EKeyData.
+Proof.
+  intros Hix Hfl Hpre Hds H.
+  apply (flow_def_fault_fatal fuel wb dm st pre d post cs); try assumption.
+  destruct (fd_drow d) as [|c dr] eqn:Edr.
+  - destruct H as [H|[Hne _]]; [|congruence].
+    apply (flow_def_missing_data_sheet cls (fun c => c)); assumption.
+  - apply (flow_def_missing_data_row cls (fun c => c)); try assumption; [rewrite Edr; discriminate|].
+    rewrite Edr. destruct H as [H|[_ H]]; [left; exact H|right; exact H].
+Qed.
+
+Theorem detect_template_argument_missing_partial fuel wb dm st pre d post cs defs a more :
+  index_phase fuel (erase wb) dm = Ok st ->
+  is_flows st = pre ++ d :: post ->
+  foldM (flow_def_step cls (fun c => c) (visit_of wb) fuel st) pre (mkCS uu0 [] 0) = Ok cs ->
+  fd_dsheet d = [] -> fd_drow d = [] ->
+  aget (is_templates st) (fd_sheet d) = Some defs -> defs = a :: more ->
+  hd [] (fd_targs d) = [] -> ad_default a = [] ->
+  compile fuel wb dm = Err EArgMissing.
+Proof.
+  intros Hix Hfl Hpre H1 H2 Ht Hd Ha Hdef.
+  apply (flow_def_fault_fatal fuel wb dm st pre d post cs); try assumption.
+  apply (flow_def_arg_missing cls (fun c => c)) with (defs := defs) (a := a) (more := more); assumption.
+Qed.
+
+Theorem detect_template_argument_double_partial fuel wb dm st pre d post cs a b more :
+  index_phase fuel (erase wb) dm = Ok st ->
+  is_flows st = pre ++ d :: post ->
+  foldM (flow_def_step cls (fun c => c) (visit_of wb) fuel st) pre (mkCS uu0 [] 0) = Ok cs ->
+  fd_dsheet d = [] -> fd_drow d = [] ->
+  aget (is_templates st) (fd_sheet d) = Some (a :: b :: more) ->
+  (hd [] (fd_targs d) <> [] \/ ad_default a <> []) ->
+  ad_name b = ad_name a ->
+  compile fuel wb dm = Err EArgDouble.
+Proof.
+  intros Hix Hfl Hpre H1 H2 Ht Hv Hn.
+  apply (flow_def_fault_fatal fuel wb dm st pre d post cs); try assumption.
+  apply (flow_def_arg_double cls (fun c => c)) with (a := a) (b := b) (more := more); assumption.
+Qed.
+
+(* ================================================================ all together *)
+(* every detection theorem of C15 ends in `compile fuel wb' dm = Err c`; with cli_error_no_file:
+   the command exits with a non-zero status and the file system is what it was *)
+Theorem detected_fault_stops_the_command fuel wb' dm c out f :
+  compile fuel wb' dm = Err c ->
+  fst (cli fuel wb' dm out f) <> 0%N /\ snd (cli fuel wb' dm out f) = f /\
+  fs_read (snd (cli fuel wb' dm out f)) out = fs_read f out.
+Proof.
+  intros H. destruct (cli_error_no_file fuel wb' dm out f c H) as [H1 H2].
+  repeat split; try assumption. rewrite H1. reflexivity.
+Qed.
